@@ -31,7 +31,7 @@ PROPS = {
         "level_text": "Mixed. Proved on the real splitter functions, for every mark sequence of any length (A-RE assumed): Splitter.split raises nothing and terminates (a decreasing measure over the marks on every loop: split, _next_mark, the three scanners); every block handler raises nothing but BlockAbortedException, which split turns into a ParsingFailedBlock carrying the error and raw = text[start of '@' : end_index] with start <= end_index; the parser-state / regex-mismatch branches are dead code; _next_mark's newline skipping is a loop (no recursion depth); Library.add is called so that it cannot raise. Bounded (native, labelled): parse_string / write_string end to end (middleware stacks, writer on failed blocks, deepcopy of errors), arbitrary Unicode, size-scaled families, hangs.",
         "level_note": MARK_NOTE,
         "modules": ["schema", "library", "model", "splitter"],
-        "functions": SPLIT_SCANNERS + SPLIT_HANDLERS + [SP + "split", SP + "_end_implicit_comment", SP + "_end_implicit_comment#for-split", LB + "add#single-quiet", LB + "__init__#empty"],
+        "functions": SPLIT_SCANNERS + SPLIT_HANDLERS + [SP + "split#new", SP + "split#into", SP + "_end_implicit_comment", SP + "_end_implicit_comment#for-split", LB + "add#single-quiet", LB + "__init__#empty"],
         "lemmas": SPLIT_LEMMAS,
         "native": "p01",
         "assumption_checks": ["A-RE"],
@@ -53,7 +53,7 @@ PROPS = {
         "level_text": "Mixed. Proved on the real splitter functions (A-RE assumed): the line counter equals the number of newline marks consumed minus one at every call boundary (scan invariant), every block's start_line is the line of its '@' mark and every field's start_line the line of its '='; raw of a block is text[start of '@' : end of its closing '}'], raw of a failed block is text[start of '@' : end_index] where end_index is the start of the handed-back mark or the end of the text, the next free text starts exactly there (no character between a failed block and what follows is dropped or shared), and the pending free-text start never lies beyond unconsumed text; TILING as a postcondition of split(): ghost code records one region of the text per step -- the free text handed to _end_implicit_comment and the raw text of every block or failed block added to the library -- and the regions are consecutive, start at 0, end at the end of the text, and the raw of every block region is exactly that piece of the text (also through Library.add's duplicate wrappers), so no character lies in two regions or in none. Inside a free-text region (_end_implicit_comment, verified in full): every character before the scan position `lead` is whitespace, nothing is returned exactly when nothing is pending or region[lead:].rstrip() is empty, otherwise raw = comment = region[lead:].rstrip() (non-empty) and the start line is the pending line plus the newlines before lead. Bounded (native, labelled): the two facts about str.rstrip that turn this into 'only whitespace is dropped' (A-STR), CRLF / backslash-newline families, that every newline character is a newline mark (R5 of A-RE, validated bounded).",
         "level_note": MARK_NOTE,
         "modules": ["schema", "library", "model", "splitter"],
-        "functions": SPLIT_SCANNERS + SPLIT_HANDLERS + [SP + "split", SP + "_end_implicit_comment", SP + "_end_implicit_comment#for-split", LB + "add#single-quiet", LB + "_cast_to_duplicate", LB + "_add_to_dicts"],
+        "functions": SPLIT_SCANNERS + SPLIT_HANDLERS + [SP + "split#new", SP + "split#into", SP + "_end_implicit_comment", SP + "_end_implicit_comment#for-split", LB + "add#single-quiet", LB + "_cast_to_duplicate", LB + "_add_to_dicts"],
         "tags": ["C03", "C09", "C08"],
         "lemmas": SPLIT_LEMMAS,
         "native": "p03",
@@ -65,7 +65,7 @@ PROPS = {
         "level_text": "Mixed. Proved on the real splitter functions (A-RE assumed): marks are consumed strictly left to right (the cursor never decreases), at most one mark is pending and it is the one yielded last; no scanner or handler ever consumes an '@' mark: on meeting one it hands it back and aborts with end_index = its start, so split's next iteration starts a block exactly there; after every block or failure the scanner state is reset and nothing is pending except such a handed-back mark; at the end all marks are consumed; the blocks of successive block regions of the text sit at successive positions of the library (source order, ghost regions of split()). Bounded (native, labelled): equality of the blocks of D1+X+D2 with those of D1 and D2 (needs the grammar lemma for D1/D2), random corruptions.",
         "level_note": MARK_NOTE,
         "modules": ["schema", "library", "model", "splitter"],
-        "functions": SPLIT_SCANNERS + SPLIT_HANDLERS + [SP + "split", SP + "_end_implicit_comment", SP + "_end_implicit_comment#for-split"],
+        "functions": SPLIT_SCANNERS + SPLIT_HANDLERS + [SP + "split#new", SP + "split#into", SP + "_end_implicit_comment", SP + "_end_implicit_comment#for-split"],
         "lemmas": SPLIT_LEMMAS,
         "native": "p04",
         "assumption_checks": ["A-RE"],
@@ -106,7 +106,7 @@ PROPS = {
     "C20": {
         "level": "other",
         "level_text": "Mixed. Proved (contracts on the real entry-point functions, every argument form, stacks of any length): stack construction (given stack used as given; default parse stack = resolve-string-references then remove-enclosings, then append_middleware in order; prepend_middleware in order then the default copy-mode AddEnclosing('{') write stack; both a stack and an addition -> ValueError before any middleware runs) and application: the ghost trace of Middleware.transform calls is exactly the stack, left to right, each applied to the previous result, the first to the split result / the given library, and the writer receives the last result and the given format and its text is returned. Bounded (native, labelled): parse_file / write_file (file I/O is outside the modelled subset), BlockMiddleware's per-block splice protocol, probe stacks end to end.",
-        "level_note": STD_NOTE + "; user middlewares are opaque: the virtual contract of Middleware.transform (may write anything reachable, returns a Library, records the call in a ghost trace) is ASSUMED for every override; Splitter.split and writer.write enter through interface contracts (their functional contracts belong to C01-C03 / C06); a fresh temporary list returned by a call and iterated directly is not retained elsewhere.",
+        "level_note": STD_NOTE + "; user middlewares are opaque: the virtual contract of Middleware.transform (may write anything reachable, returns a Library, records the call in a ghost trace) is ASSUMED for every override; Splitter.split and writer.write enter through interface contracts whose clauses (fresh / same library returned, nothing raised, footprint = the splitter's own attributes and the target library's contents) are proved for the real functions under C01 (split#new / split#into in contracts/splitter.py, frame obligations included) and C06; a fresh temporary list returned by a call and iterated directly is not retained elsewhere.",
         "modules": ["schema", "writer", "entrypoint"],
         "functions": [EPT + "_build_parse_stack#both-none", EPT + "_build_parse_stack#stack", EPT + "_build_parse_stack#append", EPT + "_build_parse_stack#both",
                       EPT + "_build_unparse_stack#both-none", EPT + "_build_unparse_stack#stack", EPT + "_build_unparse_stack#prepend", EPT + "_build_unparse_stack#both",
